@@ -170,6 +170,10 @@ def prelude(nl=None):
       if !NATIVE { E_BAD_FREE = true; return false; }
       true
     }
+    /// NATIVE playback only: what CBMC's --memory-leak-check decides under Kani
+    pub unsafe fn native_exit_check() {
+      if NATIVE && LIVE != 0 { ON = false; panic!("C06|leak|native ledger: a block allocated during the harness is still live at its end"); }
+    }
     pub struct Nat;
     unsafe impl core::alloc::GlobalAlloc for Nat {
       unsafe fn alloc(&self, l: Layout) -> *mut u8 {
@@ -178,7 +182,16 @@ def prelude(nl=None):
         p
       }
       unsafe fn dealloc(&self, p: *mut u8, l: Layout) {
-        if ON { NATIVE = true; if !on_dealloc(p, l.size(), l.align()) { return; } }
+        if ON {
+          NATIVE = true;
+          let ok = on_dealloc(p, l.size(), l.align());
+          if !ok || E_BAD_LAYOUT {
+            ON = false;
+            if E_DOUBLE_FREE { panic!("C06|double-free|native ledger: dealloc of a block that was already freed"); }
+            if E_BAD_LAYOUT { panic!("C06|bad-layout|native ledger: dealloc layout differs from the layout the block was allocated with"); }
+            panic!("C06|bad-free|native ledger: dealloc of a block this execution never allocated");
+          }
+        }
         std::alloc::GlobalAlloc::dealloc(&std::alloc::System, p, l)
       }
     }
@@ -766,6 +779,7 @@ def soften(text):
         d.append('if dsel == %d { kani::assert(!BAD[%d], "%s"); }' % (k, k, msg))
     for j, (flag, msg) in enumerate(GLOBAL_FLAGS):
         d.append('if dsel == %d { kani::assert(!%s, "%s"); }' % (len(msgs) + j, flag, msg))
+    d.append("led::native_exit_check();")
     assert "// @DISPATCH@" in text
     return text.replace("// @DISPATCH@", "\n  ".join(d)), len(msgs) + len(GLOBAL_FLAGS)
 
